@@ -22,6 +22,14 @@ func vPairInputs(L, K, O, ML int, opset []int) ([]byte, []vRec, []biogosam.Recor
 	return ref, vs, recs
 }
 
+// vPairOps: the CIGAR operators of the pair units: M, I, D, S, or (ALLOPS=1) all nine.
+func vPairOps() []int {
+	if vParam("ALLOPS") == 1 {
+		return vAllOps
+	}
+	return []int{vM, vI, vD, vS}
+}
+
 // vInsertions: per reference boundary p (0..L: before base p), the inserted bases, from the harness's own
 // reading of the CIGARs. Two records may report the SAME insertion at one boundary (overlapping supplementary
 // alignments do): it counts once. ok=false if two records insert different things at one boundary (conflicting
@@ -75,7 +83,7 @@ func VH_C02_pair() {
 	K := vParam("K")
 	O := vParam("O")
 	ML := vParam("ML")
-	ref, vs, recs := vPairInputs(L, K, O, ML, []int{vM, vI, vD, vS})
+	ref, vs, recs := vPairInputs(L, K, O, ML, vPairOps())
 	ins, unique := vInsertions(vs, L)
 	vAssume(unique)
 
@@ -137,7 +145,7 @@ func VH_C02_skip_insertions() {
 	K := vParam("K")
 	O := vParam("O")
 	ML := vParam("ML")
-	ref, _, recs := vPairInputs(L, K, O, ML, []int{vM, vI, vD, vS})
+	ref, _, recs := vPairInputs(L, K, O, ML, vPairOps())
 	cSR := make(chan samRecords, 1)
 	cSR <- samRecords{records: recs, idx: 0}
 	close(cSR)
